@@ -55,7 +55,7 @@ def run(ctx) -> None:
             ctx.fail("R04a", f, b.ast, inst, "the body can be reached without the condition having been evaluated true (or forced)", p)
         if name == "visit_WatchNode":
             # cancelled: from the wait loop's body, a cancelled node must return before activation is tried
-            tests = [n for n in g.nodes if n.kind == "test" and norm(n.ast) == "node.cancelled"]
+            tests = [n for n in g.nodes if n.kind == "test" and norm(n.ast) == f"{f.node.args.args[1].arg}.cancelled"]
             ok = False
             for t in tests:
                 if g.edge_dominates(w.id, "T", t.id) and g.search([(t.id, "T")], lambda n: n.id == b.id) is None:
@@ -67,7 +67,7 @@ def run(ctx) -> None:
             if not ok and ta_ is not None:
                 # equivalent protection: the only activation site refuses cancelled nodes (checked below as well)
                 ga = cfg_of(ta_)
-                tt = [n for n in ga.nodes if n.kind == "test" and norm(n.ast) == "node.cancelled"]
+                tt = [n for n in ga.nodes if n.kind == "test" and norm(n.ast) == f"{ta_.node.args.args[1].arg}.cancelled"]
                 aa = [n for n in ga.nodes if n.kind == "stmt" and any(t.attr == "activated" for t, v, st in assigned_attrs(n.ast))]
                 ok = bool(tt and aa) and ga.search([(tt[0].id, "T")], lambda n: n.id == aa[0].id) is None
             if ok:
@@ -106,25 +106,28 @@ def run(ctx) -> None:
                                                             for t, v, st in assigned_attrs(n.ast))]
     if len(acts) != 1:
         raise AnchorError("_try_activate_node: single `node.activated = True` not found")
-    facts = facts_at(g, acts[0])
+    tpar = ta.node.args.args[1].arg
+    # the local that decides the activation: a Name tested true on every path to the activation (by role, not by name)
+    cond_locals = [e.id for e, pol in g.conditions_at(acts[0]) if pol and isinstance(e, ast.Name)]
     inst = "_try_activate_node: activation under condition_result"
-    if ("condition_result", True) in facts:
+    if cond_locals:
         ctx.ok("R04a", inst)
     else:
         ctx.fail("R04a", ta, acts[0].ast, inst, "node activated unconditionally")
+    CR = cond_locals[0] if cond_locals else "condition_result"
     # condition_result True only from forced or _evaluate_condition; cancelled returns first
-    tests = [n for n in g.nodes if n.kind == "test" and norm(n.ast) == "node.cancelled"]
+    tests = [n for n in g.nodes if n.kind == "test" and norm(n.ast) == f"{tpar}.cancelled"]
     inst = "_try_activate_node: a cancelled node is never activated"
     if tests and g.search([(tests[0].id, "T")], lambda n: n.id == acts[0].id) is None:
         ctx.ok("R04a", inst)
     else:
         ctx.fail("R04a", ta, ta.node, inst, "a cancelled node can still be activated")
-    sets = [n for n in g.nodes if n.kind == "stmt" and isinstance(n.ast, ast.Assign) and norm(n.ast.targets[0]) == "condition_result"]
+    sets = [n for n in g.nodes if n.kind == "stmt" and isinstance(n.ast, ast.Assign) and norm(n.ast.targets[0]) == CR]
     srcs = sorted({norm(n.ast.value) for n in sets})
     inst = "_try_activate_node: condition_result comes from False / forced / _evaluate_condition"
-    if set(srcs) <= {"False", "True", "self._evaluate_condition(node)"}:
+    if set(srcs) <= {"False", "True", f"self._evaluate_condition({tpar})"}:
         true_sets = [n for n in sets if norm(n.ast.value) == "True"]
-        if all(("node.forced", True) in facts_at(g, n) for n in true_sets):
+        if all((f"{tpar}.forced", True) in facts_at(g, n) for n in true_sets):
             ctx.ok("R04a", inst)
         else:
             ctx.fail("R04a", ta, ta.node, inst, "condition_result forced to True outside the `node.forced` branch")
